@@ -517,13 +517,18 @@ Definition differs (p : prog) (s0 : store) (l : loc) : Prop :=
   exists tr, interleaving p tr /\ guards_ok tr s0 = true /\ guards_ok (seq_trace p) s0 = true /\
              exec_trace tr s0 l <> exec_trace (seq_trace p) s0 l.
 
+Definition trace_by (sched : list nat) (p : prog) : trace :=
+  match trace_of sched p with Some t => t | None => [] end.
+Definition is_some {A} (o : option A) : bool := match o with Some _ => true | None => false end.
+Lemma trace_by_ok : forall sched p, is_some (trace_of sched p) = true -> trace_of sched p = Some (trace_by sched p).
+Proof. intros sched p H. unfold trace_by. destruct (trace_of sched p); [reflexivity | discriminate]. Qed.
+
+(* the trace is never expanded in the proof term: only closed boolean / integer facts are computed *)
 Ltac differ sched :=
   match goal with |- differs ?p ?s0 ?l =>
-    let tr := eval vm_compute in (trace_of sched p) in
-    match tr with
-    | Some ?t => exists t; split; [apply (trace_of_interleaving sched); vm_compute; reflexivity |
-                  split; [vm_compute; reflexivity | split; [vm_compute; reflexivity | vm_compute; discriminate]]]
-    end
+    exists (trace_by sched p); split;
+    [ apply (trace_of_interleaving sched); [apply trace_by_ok; vm_compute; reflexivity | vm_compute; reflexivity]
+    | split; [vm_compute; reflexivity | split; [vm_compute; reflexivity | vm_compute; discriminate]] ]
   end.
 
 (* header-granular interleaving of two handles: thread 0 gets inodes 1 and 3 instead of 1 and 2 *)
@@ -533,13 +538,13 @@ Proof. differ sched_tar. Qed.
 Lemma default_inode_delta_differs : differs prog_tar zero_store (Private 0 "delta").
 Proof. differ sched_tar. Qed.
 (* torn increment: both handles' first entries get the same inode number *)
+Definition sched_tar_torn : list nat := [0;0; 1;1; 0;0; 1;1; 0;0;0;0;0; 1;1;1;1;1]%nat.
 Lemma default_inode_duplicate : exists tr, interleaving prog_tar tr /\ guards_ok tr zero_store = true /\
   exec_trace tr zero_store (Private 0 "ino1") = exec_trace tr zero_store (Private 1 "ino1").
 Proof.
-  pose (sched := [0;0; 1;1; 0;0; 1;1; 0;0;0;0;0; 1;1;1;1;1]%nat).
-  destruct (trace_of sched prog_tar) as [t |] eqn:E; [| vm_compute in E; discriminate].
-  exists t. split; [apply (trace_of_interleaving sched); [exact E | vm_compute; reflexivity] |].
-  vm_compute in E. inversion E; subst t. split; vm_compute; reflexivity.
+  exists (trace_by sched_tar_torn prog_tar). split.
+  - apply (trace_of_interleaving sched_tar_torn); [apply trace_by_ok; vm_compute; reflexivity | vm_compute; reflexivity].
+  - split; vm_compute; reflexivity.
 Qed.
 
 (* the second LHA reader sees crc16init = 1 while the table is still zero *)
